@@ -127,8 +127,8 @@ def run_cases(b, fam, cases, workdir):
         open(sp, "w").write(s.text())
         if os.path.exists(op):
             os.unlink(op)
-        pre = ":".join([b["lib"], os.path.join(c.BUILD, "librec.so")])
-        env = {"PATH": "/usr/bin:/bin", "LD_PRELOAD": pre, "XDRV_INI": os.path.join(ctx.etc, "snoopy.ini"), "TZ": "UTC"}
+        env = {"PATH": "/usr/bin:/bin", "LD_PRELOAD": cf.preload(b), "XDRV_INI": os.path.join(ctx.etc, "snoopy.ini"), "TZ": "UTC"}
+        env.update(cf.SAN_ENV)
         try:
             subprocess.run([os.path.join(c.BUILD, "xdrv"), sp, op], env=env, capture_output=True, timeout=1500, cwd=ctx.w, stdin=subprocess.DEVNULL)
         except subprocess.TimeoutExpired:
